@@ -88,10 +88,12 @@ Proof.
   - exfalso. exact (from_bytes_no_panic e f k' E).
 Qed.
 
-(* anything accepted re-serializes - to Ok, a fortiori without a panic - in either arithmetic mode and either endianness *)
+(* anything accepted re-serializes - to Ok, or to the size error when the image would exceed the 32-bit sizes of the format
+   (fix 524d15f) - without a panic, in either arithmetic mode and either endianness *)
 Theorem text_accepted_reserializes : forall fmt e f t, TextFormat.from_bytes fmt e f = Ok t ->
-  forall kf m e', (exists f', TextFormat.serialize kf m fmt e' t = Ok f') /\ forall k, TextFormat.serialize kf m fmt e' t <> Panic k.
-Proof. intros fmt e f t _ kf m e'. split; [apply text_serialize_ok | intros k; apply text_serialize_no_panic]. Qed.
+  forall kf m e', ((exists f', TextFormat.serialize kf m fmt e' t = Ok f') \/ TextFormat.serialize kf m fmt e' t = Err EOther)
+                  /\ forall k, TextFormat.serialize kf m fmt e' t <> Panic k.
+Proof. intros fmt e f t _ kf m e'. split; [apply text_serialize_ok_or_too_large | intros k; apply text_serialize_no_panic]. Qed.
 
 (* ---------------------------------------------------------------- arc: every byte string, both modes *)
 Theorem arc_from_bytes_never_panics : forall m f k, arc_from_bytes m f <> Panic k.
